@@ -15,6 +15,7 @@
 #include <sys/ioctl.h>
 #include <sys/socket.h>
 #include <sys/stat.h>
+#include <sys/sysmacros.h>
 #include <sys/un.h>
 #include <unistd.h>
 
@@ -690,8 +691,29 @@ VF_SECTION(paths, 2, 2, 120) {
 }
 
 namespace {
-enum Kind { K_FILE, K_DIR, K_DIR_FILE, K_LINK_FILE, K_LINK_DIR, K_DANGLING, K_DIR_WITH_LINKDIR, K_FIFO, K_DEEP3, K_DIR_ODD, K_DEEP_LINKS, K_SELF_LINK, NKIND };
-const char* kind_name[] = {"file", "emptydir", "dir+file", "symlink->outside file", "symlink->outside dir", "dangling symlink", "dir containing symlink->outside dir", "FIFO", "dir/dir/dir/file + dir/file", "dir containing {dangling symlink, FIFO, empty dir, symlink to itself}", "dir/dir/{symlink->outside dir, symlink->tree root}", "symlink to itself"};
+enum Kind { K_FILE, K_DIR, K_DIR_FILE, K_LINK_FILE, K_LINK_DIR, K_DANGLING, K_DIR_WITH_LINKDIR, K_FIFO, K_DEEP3, K_DIR_ODD, K_DEEP_LINKS, K_SELF_LINK, K_SOCKET, K_CHARDEV, K_BLOCKDEV, K_DIR_SPECIALS, NKIND };
+const char* kind_name[] = {"file", "emptydir", "dir+file", "symlink->outside file", "symlink->outside dir", "dangling symlink", "dir containing symlink->outside dir", "FIFO", "dir/dir/dir/file + dir/file", "dir containing {dangling symlink, FIFO, empty dir, symlink to itself}", "dir/dir/{symlink->outside dir, symlink->tree root}", "symlink to itself", "unix-domain socket", "character device node", "block device node", "dir containing {socket, character device, block device, FIFO}"};
+
+// Round 5: the remaining inode types (S_IFSOCK, S_IFCHR, S_IFBLK), so that every file type the kernel has occurs in the
+// trees (seed C14-J: a type test without the S_IFMT mask took sockets and block devices for directories).
+// The socket is bound through /proc/self/fd/<dir> so that the 108-byte sun_path limit does not depend on the scratch path.
+void make_socket(const std::string& p) {
+  size_t slash = p.rfind('/');
+  std::string dir = p.substr(0, slash), name = p.substr(slash + 1);
+  int dfd = open(dir.c_str(), O_RDONLY | O_DIRECTORY);
+  int sfd = socket(AF_UNIX, SOCK_STREAM, 0);
+  if (dfd >= 0 && sfd >= 0) {
+    struct sockaddr_un sa;
+    memset(&sa, 0, sizeof(sa));
+    sa.sun_family = AF_UNIX;
+    snprintf(sa.sun_path, sizeof(sa.sun_path), "/proc/self/fd/%d/%s", dfd, name.c_str());
+    if (bind(sfd, reinterpret_cast<struct sockaddr*>(&sa), sizeof(sa)) != 0) { /* counted by the caller through lstat */ }
+  }
+  if (sfd >= 0) close(sfd);
+  if (dfd >= 0) close(dfd);
+}
+// device nodes need CAP_MKNOD; where it is missing the entry is simply absent (the section counts what was created)
+void make_node(const std::string& p, mode_t type) { if (mknod(p.c_str(), type | 0644, type == S_IFCHR ? makedev(1, 3) : makedev(7, 200)) != 0) {} }
 
 // creates entry `p` of the given kind; `outside` is a directory that must survive
 void make_entry(const std::string& p, int k, const std::string& outside, const std::string& root) {
@@ -725,6 +747,16 @@ void make_entry(const std::string& p, int k, const std::string& outside, const s
       if (symlink(root.c_str(), (p + "/d1/up").c_str())) {}
       break;
     case K_SELF_LINK: if (symlink(p.substr(p.rfind('/') + 1).c_str(), p.c_str())) {} break;
+    case K_SOCKET: make_socket(p); break;
+    case K_CHARDEV: make_node(p, S_IFCHR); break;
+    case K_BLOCKDEV: make_node(p, S_IFBLK); break;
+    case K_DIR_SPECIALS:
+      mkdir(p.c_str(), 0755);
+      make_socket(p + "/sock");
+      make_node(p + "/cdev", S_IFCHR);
+      make_node(p + "/bdev", S_IFBLK);
+      mkfifo((p + "/fifo").c_str(), 0644);
+      break;
   }
 }
 }  // namespace
@@ -759,7 +791,7 @@ VF_SECTION(dirs, 16, 16, 240) {
   // the root named differently: with a trailing slash; through a symlink (unlink removes only the link)
   for (int form = 1; form <= 2; form++) for (uint32_t k = 0; k < NKIND; k++) trees.push_back({{"a", ".h"}, {k, K_DEEP3}, form});
   // the "tree" is a single non-directory (file, FIFO, symlinks): unlink(p, true) removes just it
-  for (uint32_t k : {(uint32_t)K_FILE, (uint32_t)K_FIFO, (uint32_t)K_LINK_FILE, (uint32_t)K_LINK_DIR, (uint32_t)K_DANGLING, (uint32_t)K_SELF_LINK}) trees.push_back({{}, {k}, 3});
+  for (uint32_t k : {(uint32_t)K_FILE, (uint32_t)K_FIFO, (uint32_t)K_LINK_FILE, (uint32_t)K_LINK_DIR, (uint32_t)K_DANGLING, (uint32_t)K_SELF_LINK, (uint32_t)K_SOCKET, (uint32_t)K_CHARDEV, (uint32_t)K_BLOCKDEV}) trees.push_back({{}, {k}, 3});
   // a path that does not exist: outside the statement, executed only
   trees.push_back({{}, {}, 4});
   for (auto& tree : trees) {
@@ -811,6 +843,11 @@ VF_SECTION(dirs, 16, 16, 240) {
       if (members.size() <= 12 || i < 3) desc += vf::show(nm.size() > 40 ? nm.substr(0, 40) + "..." : nm) + "=" + kind_name[tree.kinds[i]] + "; ";
       want.insert(nm);
       make_entry(root + "/" + nm, tree.kinds[i], outside, root);
+      if (tree.kinds[i] == K_SOCKET || tree.kinds[i] == K_CHARDEV || tree.kinds[i] == K_BLOCKDEV) {
+        struct stat st;
+        bool made = lstat((root + "/" + nm).c_str(), &st) == 0 && (S_ISSOCK(st.st_mode) || S_ISCHR(st.st_mode) || S_ISBLK(st.st_mode));
+        r.counters[made ? "special inodes (socket/char/block) created" : "special inodes that could not be created (no CAP_MKNOD?)"]++;
+      }
     }
     if (members.size() > 12) desc += vf::fmt("... %zu entries; ", members.size());
     std::string arg = root;
@@ -850,7 +887,7 @@ VF_SECTION(dirs, 16, 16, 240) {
     if (!bad) r.ok(members.size() > 12 ? "big-directory" : tree.rootform ? "root-named-differently" : "listed-and-removed");
   }
   rm_rf(base);
-  r.bound = vf::fmt("every tree with <%zu entries over 4 names x %d entry kinds (depth to 4, FIFOs, dangling/self/ancestor links) and with %zu entries over the 7 basic kinds; 12 names with unusual bytes x 3 kinds and together; directories of 300 and 3000 entries; root with trailing slash / through a symlink x %d kinds", maxk, (int)NKIND, maxk, (int)NKIND);
+  r.bound = vf::fmt("every tree with <%zu entries over 4 names x %d entry kinds (every inode type: regular, directory, symlink, FIFO, unix socket, character and block device; depth to 4, dangling/self/ancestor links) and with %zu entries over the 7 basic kinds; 12 names with unusual bytes x 3 kinds and together; directories of 300 and 3000 entries; root with trailing slash / through a symlink x %d kinds", maxk, (int)NKIND, maxk, (int)NKIND);
 }
 
 // ---- scoped_fd ------------------------------------------------------------------------------------------
